@@ -1760,6 +1760,7 @@ func (r *replicateChannelHandler) handlePack(forward bool, pack *msgstream.MsgPa
 	}
 
 	if forwardChannel != "" {
+		verifNote("pack:forward", streamPChannel, uint64(sourceCollectionID), newPack)
 		r.forwardMsgFunc(forwardChannel, api.GetReplicateMsg(streamPChannel, sourceCollectionName, sourceCollectionID, newPack, taskID))
 		return api.EmptyMsgPack
 	}
